@@ -631,6 +631,8 @@ def _tokenize(readline: Callable[[], str]) -> Iterator[TokenInfo]:
         state.move_next_line(readline)
 
         if state.end_progs:
+            # a backslash continuation inside the braces of an f-string is used up by this line
+            state.continued = False
             yield from handle_end_progs(state)
 
         elif state.parenlev == 0 and not state.continued:  # new statement
